@@ -275,3 +275,10 @@ VCT = [x for x in VCT if x[1] != "incs_4_4_16_closed"]
 for pid, items in (("C05", VCT), ("C06", VCT[:1])):
     if pid in PLAN:
         add_imports(pid, WHI + ["ModelCipher", "ModelCtr", "WholeProc", "WholeCtr", "WholeCtrModel", "WholeCtrVec", "WholeCtrVecModel"]); PLAN[pid] += items
+
+# *_ctr_*_set_counter of every back end (WholeCtrSet.v)
+WCS = "WholeCtrSet.v"
+SCT = [(WCS, "w_set_counter_model"), (WCS, "set_counter_is_spec"), (WCS, "w_set_counter_homU")]
+for pid, items in (("C05", SCT),):
+    if pid in PLAN:
+        add_imports(pid, WHI + ["ModelCipher", "ModelCtr", "WholeProc", "WholeCtr", "WholeCtrModel", "WholeCtrVec", "WholeCtrVecModel", "WholeCtrSet"]); PLAN[pid] += items
